@@ -161,6 +161,44 @@ def _flat_check(sim):
     for k in flat:
         if k not in first:
             return f"the flat trace lists {k}, which the trace trees do not record"
+    # the serialised form (web API /trace): same keys, same reads, the values written out
+    from openfisca_core.indexed_enums import EnumArray
+    try:
+        ser = sim.tracer.get_serialized_flat_trace()
+    except Exception as exc:
+        return f"get_serialized_flat_trace raised {type(exc).__name__}: {str(exc)[:80]}"
+    if set(ser) != set(flat):
+        return "the serialised flat trace does not have the keys of the flat trace"
+    for k, node in first.items():
+        if list(ser[k]["dependencies"]) != list(flat[k]["dependencies"]):
+            return f"the serialised flat trace of {k} lists other reads than the flat trace"
+        v = node.value
+        if v is None:
+            want = None
+        elif isinstance(v, EnumArray):
+            want = [v.possible_values.names[int(i)] if hasattr(v.possible_values, "names") else list(v.possible_values)[int(i)].name
+                    for i in numpy.asarray(v.view(numpy.ndarray)).tolist()]
+        elif v.dtype.kind in "iufb":
+            want = v.tolist()
+        else:
+            continue
+        if ser[k]["value"] != want:
+            return f"the serialised flat trace of {k} carries {str(ser[k]['value'])[:60]}, its calculation returned {str(want)[:60]}"
+    # the computation log: one line per node of the trees, in chronological (depth-first) order, indented by depth
+    want_lines = []
+
+    def walk2(node, depth):
+        want_lines.append("  " * depth + f"{node.name}<{node.period}> >> ")
+        for ch in node.children:
+            walk2(ch, depth + 1)
+    for root in sim.tracer.trees:
+        walk2(root, 1)
+    try:
+        lines = sim.tracer.computation_log.lines()
+    except Exception as exc:
+        return f"computation_log.lines raised {type(exc).__name__}: {str(exc)[:80]}"
+    if len(lines) != len(want_lines) or any(not l.startswith(w) for l, w in zip(lines, want_lines)):
+        return "the computation log does not list the calculations in the order and at the depth of the trace trees"
     return None
 
 
@@ -198,6 +236,7 @@ def impl(case: Case) -> str:
     try:
         sim = rs.build_simulation(c, tbs, E5, configure)
         outs = []
+        trace_msg = None
         for r in c.reqs:
             if r[0] == "reads":
                 outs.append(_real_reads(c, sim) if c.config.get("trace") else "T:?")
@@ -213,13 +252,15 @@ def impl(case: Case) -> str:
             if sim.tracer.stack or sim.invalidated_caches:
                 o += "#STATE"
             outs.append(o)
+            if c.config.get("trace") and trace_msg is None:
+                trace_msg = _flat_check(sim)      # consulted after EVERY request, not only at the end
         try:
             known = ",".join(f"{k}={v}" for k, v in rs.known_entries(c, sim))
         except Exception as exc:     # a stored value that cannot be read back
             known = f"#UNREADABLE:{type(exc).__name__}: {str(exc)[:120]}"
         out = ";".join(outs) + "|" + known
         if c.config.get("trace"):
-            msg = _flat_check(sim)
+            msg = trace_msg or _flat_check(sim)
             if msg:
                 out += "#TRACE:" + msg
         return out
@@ -259,7 +300,7 @@ def oracle(case: Case, out: str):
         if "#STATE" in g:
             return ("stack-not-empty", f"request {c.reqs[i]}: evaluation stack or invalidated set not empty after the request")
     # the plain in-memory run of the same system and requests
-    plain = rs.SysCase(c.nP, c.nG, c.mem, c.msl, c.vars, c.inputs, [r for r in c.reqs if r[0] != "reads"], {})
+    plain = rs.derive(c, reqs=[r for r in c.reqs if r[0] != "reads"], config={})
     pout, _, _ = rs.run_real(plain)
     want = pout.split("|")[0].split(";")
     for i, (g, w) in enumerate(zip(got, want)):
@@ -285,7 +326,9 @@ def _with_config(rng, c: rs.SysCase, subset) -> rs.SysCase:
     if (cfg["priority"] or cfg["drop"]) and not cfg["memory"]:
         cfg["memory"] = True
     # dropping an input-carrying variable loses nothing (inputs are set through set_input, not put_in_cache)
-    return rs.SysCase(c.nP, c.nG, c.mem, c.msl, c.vars, c.inputs, c.reqs, cfg)
+    # a third of the inputs are written twice (the latest value counts)
+    cfg["rewrite"] = [i for i in range(len(c.inputs)) if rng.random() < 0.3]
+    return rs.derive(c, config=cfg)
 
 
 def generate(rng: random.Random, tier: str):
@@ -312,7 +355,7 @@ def corpus():
     for sub in [("memory",), ("memory", "trace"), ("trace",), ()]:
         cfg = {o: (o in sub) for o in OPTS}
         cfg.update(priority_vars=[], drop_vars=[], blacklist_vars=[])
-        out.append(_case(rs.SysCase(c.nP, c.nG, c.mem, c.msl, c.vars, c.inputs, c.reqs, cfg), ("corpus",) + tuple("opt:" + o for o in sub)))
+        out.append(_case(rs.derive(c, config=cfg), ("corpus",) + tuple("opt:" + o for o in sub)))
     return out
 
 
